@@ -1,0 +1,11 @@
+//go:build verif
+
+package kv
+
+import "github.com/lindb/lindb/pkg/timeutil"
+
+// VerifNewRollup exposes the unexported rollup relation (source family => target family) to the C13
+// verification harness (only compiled with -tags verif; no behaviour change).
+func VerifNewRollup(source, target timeutil.Interval, sourceFTime, targetFTime int64) Rollup {
+	return newRollup(source, target, sourceFTime, targetFTime)
+}
